@@ -34,6 +34,10 @@ type Worker interface {
 	Hash(n Node) [32]byte
 }
 
+// RootChecker is optionally implemented by workers whose fixture construction already evaluates
+// oracles (genesis, prefix blocks); those violations are reported with the empty trace.
+type RootChecker interface{ RootViolations() []Violation }
+
 // Scenario builds workers. NewWorker must be deterministic: the same trace of event names
 // produces the same states on every worker.
 type Scenario interface {
@@ -281,6 +285,9 @@ func Run(sc Scenario, cfg Config) (*Result, error) {
 	res := &Result{Scenario: sc.Name(), Params: sc.Params(), DepthTarget: cfg.MaxDepth}
 	s := &search{sc: sc, cfg: cfg, found: map[string]Found{}}
 	s.vis = newVisited()
+	if rc, ok := workers[0].(RootChecker); ok {
+		s.report(rc.RootViolations(), nil)
+	}
 	var total int64
 	for d := 1; d <= cfg.MaxDepth; d++ {
 		s.trans.Store(0)
